@@ -162,8 +162,14 @@ def _create_files(  # noqa: C901, PLR0912, PLR0913
 def _delete_dirs(entries, path, fs):
     # remove nested directories before their parents
     for entry in sorted(entries, key=lambda entry: len(entry.key), reverse=True):
+        entry_path = fs.join(path, *entry.key)
         try:
-            fs.rmdir(fs.join(path, *entry.key))
+            if isinstance(fs, LocalFileSystem) and os.path.islink(entry_path):
+                # a symlink to a directory is indexed as a directory: remove the
+                # link itself (rmdir cannot), never what it points to
+                os.unlink(entry_path)
+            else:
+                fs.rmdir(entry_path)
         except OSError:
             pass
 
